@@ -239,8 +239,8 @@ func runC18(r *Run) {
 	r.RecoverCovers("rpc/server.(*callback).call", []string{"(reflect.Value).Call"}, "a panicking method produces an error response, it does not terminate the server")
 	r.WhoMayCallExt("reflective method invocation", "(reflect.Value).Call", []string{"rpc/server.(*callback).call", "vm/abi.*", "common.*"}, false, "registered methods are invoked only under the recovering defer")
 	rb := "rpc/server.(*jsonCodec).readBatch"
-	r.Has(rb, "store server.parseMessage(new(json.RawMessage))#0[(iter+1)] = new(server.jsonrpcMessage)", "a null entry of a batch is replaced by an empty message (answered with an invalid-request error), never left nil for the handler to dereference")
-	r.Branch(rb, "eq(nil,server.parseMessage(new(json.RawMessage))#0[(iter+1)])", "null entries are detected")
+	r.Has(rb, "store server.parseMessage(new(json.RawMessage))#0[iter] = new(server.jsonrpcMessage)", "a null entry of a batch is replaced by an empty message (answered with an invalid-request error), never left nil for the handler to dereference")
+	r.Branch(rb, "eq(nil,server.parseMessage(new(json.RawMessage))#0[iter])", "null entries are detected")
 	r.Returns("rpc/server.parseMessage", []string{"list(new(server.jsonrpcMessage)), false", "iter(nil), true"}, "a single request always yields one allocated message; a batch yields one allocated slot per element")
 	r.Guards([]row{{F: rb, C: "ne(dyn(recv.decode,new(json.RawMessage)),nil)", Why: "undecodable input is an error"}})
 	// (4) nil discipline
